@@ -195,8 +195,21 @@ impl BufferManager {
 
         #[cfg(grafeo_verif)]
         crate::verif::yield_point("buf.try_allocate.between_check_and_add");
-        // Perform allocation
-        self.allocated.fetch_add(size, Ordering::Relaxed);
+        // Perform allocation. The limit is re-checked atomically with the addition:
+        // another thread may have allocated since the check above.
+        if self
+            .allocated
+            .fetch_update(Ordering::Relaxed, Ordering::Relaxed, |current| {
+                if current + size > self.hard_limit {
+                    None
+                } else {
+                    Some(current + size)
+                }
+            })
+            .is_err()
+        {
+            return None;
+        }
         self.region_allocated[region.index()].fetch_add(size, Ordering::Relaxed);
 
         // Check pressure and potentially trigger background eviction
